@@ -4,7 +4,7 @@ from props.walletfam import WalletProp, H, wspec_from_mnemonic
 
 class Prop(WalletProp):
     id = "C06"
-    theorems = ["C06_bip_section_spec", "C06_rows_in_order", "C06_generate_layout", "C06_account_version_slip132"]
+    theorems = ["C06_bip_section_spec", "C06_rows_count", "C06_row_shape", "C06_account_path", "C06_account_version_slip132", "C06_generate_layout"]
     rule = ("Gen: PaperWallet.generate(account, (lo, hi)) on wallets from random seeds (16/32/64 bytes) and from mnemonics with passphrases, both "
             "networks, accounts 0, 1, 66, 2^31-1, random; intervals empty, reversed, single-row, offset near 2^31, ordinary; every section checked "
             "in Coq against Spec.derive_prv with the executable curve: account path/keys under the SLIP-132 version of (purpose, network), one row per "
